@@ -131,24 +131,29 @@ def t_convex_hull_transform(M):
     return Select(Const("zeros"), Glob("len_is_0", Gm), body)           # if len(unmasked_pixels) == 0: return zeros
 
 
-def _regmax_ties(M, repaired=True):
+RSYM = 987654          # stands for the symbolic radius `r` of the structure (printed as `r` by Emitter.coq_param)
+
+
+def _regmax_ties(M, repaired=True, r=1):
     # result = ones; result[~mask] = False (the repair 4e442e0);  result &= AND over the structure's offsets (centre
     # excluded) of the shifted zero-padded mask = punctured erosion;  result[...][image < shifted image] = False reads
     # the 8 neighbours (default 3x3 structure)
-    t = Select(Not(Loc(1, "has_greater_neighbour", Img)), ErodeP(1, MaskE), FalseC)
+    # a (2r+1)x(2r+1) structure reads / erodes within radius r
+    t = Select(Not(Loc(r, "has_greater_neighbour", Img)), ErodeP(r, MaskE), FalseC)
     return And(MaskE, t) if repaired else t
 
 
 def t_regional_maximum_ties(M): return _regmax_ties(M)
 
 
-def _regmax_default(M, repaired):
-    T = _regmax_ties(M, repaired)                         # result = regional_maximum(image, mask, structure, True)
+def _regmax_default(M, repaired, r=1):
+    T = _regmax_ties(M, repaired, r)                         # result = regional_maximum(image, mask, structure, True)
     picked = Glob("one_pixel_per_component(edt,label,rank_order,maximum_position)", T)
     return Select(picked, Glob("any", T), T)              # if not np.any(result): return result
 
 
 def t_regional_maximum_default(M): return _regmax_default(M, True)
+def t_regional_maximum_param(M): return _regmax_default(M, True, RSYM)
 def t_regional_maximum_unmasked_ties(M): return _regmax_default(M, False)
 
 
@@ -178,4 +183,6 @@ REJECTED = {"median_filter_unmasked_minmax": ("median_filter", t_median_filter_a
 # further accepted configurations of listed functions (extra Examples)
 EXTRA = {"regional_maximum_ties_are_ok": ("regional_maximum", t_regional_maximum_ties)}
 # other functions whose code the hand terms rely on (pinned too)
+# terms with a symbolic radius: `forall r, accepts (prog_<name> r) = true`
+PARAM = {"regional_maximum_at": ("regional_maximum", t_regional_maximum_param)}
 ALSO_PINNED = {}      # openlines' term takes opening/grey_erosion/grey_dilation from the translator, not from a pin
